@@ -403,6 +403,24 @@ fn pool_limit(rep: &mut Report, mode: &str) {
             ok &= ok && expect(rep, "pool-65535", mode, "2 new strings into the freed entries", b.step("insert of 2 new strings after the shared strings were released", false, ins(room, room + 2)), Some(Outcome::Ok));
             ok &= ok && expect(rep, "pool-65535", mode, "1 more", b.step("insert beyond the limit after refill", false, ins(room + 2, room + 3)), Some(Outcome::Err));
         }
+        "existing-string-after-a-freed-entry" => {
+            // one entry near the front is freed; a string that already has an entry further back is referenced
+            // once more (no new distinct string); then one new distinct string must still fit
+            b.pkg
+                .as_mut()
+                .unwrap()
+                .create_table("W", vec![msi::Column::build("K").primary_key().int32(), msi::Column::build("V").nullable().string(16)])
+                .expect("create W");
+            let room = CAP - pool_entries(&mut b);
+            ok &= expect(rep, "pool-65535", mode, "fill to L", b.step("insert of distinct strings up to 65,535 pool entries", true, ins(0, room)), Some(Outcome::Ok));
+            let del = |p: &mut Pkg| p.delete_rows(msi::Delete::from("S").with(msi::Expr::col("K").eq(msi::Expr::string("s00003"))));
+            ok &= ok && expect(rep, "pool-65535", mode, "free one entry near the front", b.step("delete of one row", false, del), Some(Outcome::Ok));
+            let again = format!("s{:05}", room - 5);
+            let reuse = move |p: &mut Pkg| p.insert_rows(msi::Insert::into("W").row(vec![msi::Value::Int(1), msi::Value::Str(again)]));
+            ok &= ok && expect(rep, "pool-65535", mode, "one more reference to an existing string", b.step("insert referencing a string that is already pooled", false, reuse), Some(Outcome::Ok));
+            ok &= ok && expect(rep, "pool-65535", mode, "one new distinct string (65,535 distinct in all)", b.step("insert of one new string into the freed entry", false, ins(room, room + 1)), Some(Outcome::Ok));
+            ok &= ok && expect(rep, "pool-65535", mode, "1 more", b.step("insert beyond the limit", false, ins(room + 1, room + 2)), Some(Outcome::Err));
+        }
         "reference-count-overflow-at-full-pool" => {
             // one string referenced 65,534 times; a row holding it twice needs a second entry for it
             b.pkg
@@ -568,6 +586,7 @@ pub fn which_of(limit: Option<&str>, mode: Option<&str>) -> usize {
         (_, Some("one-batch")) => 1,
         (_, Some("create-table-at-limit")) => 2,
         (_, Some("shared-strings-over-sessions")) => 3,
+        (_, Some("existing-string-after-a-freed-entry")) => 6,
         _ => 4,
     }
 }
@@ -581,6 +600,7 @@ pub fn capacity_for(prop: &'static str, which: usize, rep: &mut Report) {
         1 => pool_limit(rep, "one-batch"),
         2 => pool_limit(rep, "create-table-at-limit"),
         3 => pool_limit(rep, "shared-strings-over-sessions"),
+        6 => pool_limit(rep, "existing-string-after-a-freed-entry"),
         4 => pool_limit(rep, "reference-count-overflow-at-full-pool"),
         _ => catalog_row_limit(rep),
     }
@@ -599,6 +619,7 @@ pub fn run(ctx: &Ctx) -> Report {
     jobs.push(("pool-65535", "after-deletions"));
     jobs.push(("pool-65535", "create-table-at-limit"));
     jobs.push(("pool-65535", "shared-strings-over-sessions"));
+    jobs.push(("pool-65535", "existing-string-after-a-freed-entry"));
     jobs.push(("pool-65535", "reference-count-overflow-at-full-pool"));
     jobs.push(("catalog-rows-65536", "create-table"));
     if let Some((l, m)) = &replay_only {
